@@ -893,7 +893,10 @@ def full_case_impl(root: Path, case: Dict[str, Any], custom: bool, drive: bool) 
             c["client_inputs"] = _imports_from(val["client.py"], "input_types")
             c["client_enums"] = _imports_from(val["client.py"], "enums")
             c["fragments_written"] = "fragments.py" in val
-            c["mentioned"] = sorted(_mentioned_names({k: v for k, v in val.items() if k not in ("enums.py", "__init__.py")}))
+            # the custom-operation modules are left out: what THEY import that the pruning was never told about is finding
+            # C09-F1 (judged by the import oracle under its own signature), not part of this reading decision
+            c["mentioned"] = sorted(_mentioned_names({k: v for k, v in val.items()
+                                                      if k not in ("enums.py", "__init__.py") and not k.startswith("custom_")}))
             if custom:
                 ci: Set[str] = set()
                 ce: Set[str] = set()
